@@ -14,7 +14,7 @@ RULE = ('trees of 1-4 datasets, each a generator-valid Main dataset with 0, 1 or
         'given to the model is re-read from the file with raw h5py; non-trivial = at least one corrupted dataset')
 LINKS = ['Position_Indices', 'Position_Values', 'Spectroscopic_Indices', 'Spectroscopic_Values']
 LINK_CORR = ['missing', 'notref', 'dangling', 'group', 'rank1', 'rank0', 'rank3', 'rows', 'cols', 'nolabels', 'nounits',
-             'labels_diff', 'units_diff', 'labels_len', 'units_len']
+             'labels_diff', 'units_diff', 'labels_len', 'units_len', 'both_len', 'both_short', 'labels_last_diff']
 MAIN_CORR = ['no_quantity', 'no_units', 'quantity_nonstr', 'units_nonstr', 'main_rank1', 'main_rank3', 'pair_shape_pos',
              'pair_shape_spec', 'both_labels_len_pos', 'both_labels_len_spec']
 ALL_CORR = MAIN_CORR + ['%s:%s' % (l, c) for l in LINKS for c in LINK_CORR]
@@ -137,6 +137,17 @@ def _corrupt(grp, h5_main, corr):
             d.attrs['labels'] = np.array(list(d.attrs['labels']) + [b'ZZ'], dtype='S')
         elif c == 'units_len':
             d.attrs['units'] = np.array(list(d.attrs['units']) + [b'zz'], dtype='S')
+        elif c == 'both_len':          # labels AND units of this one dataset extended (still a common prefix)
+            d.attrs['labels'] = np.array(list(d.attrs['labels']) + [b'ZZ'], dtype='S')
+            d.attrs['units'] = np.array(list(d.attrs['units']) + [b'zz'], dtype='S')
+        elif c == 'both_short':        # ... or both truncated by one
+            if len(d.attrs['labels']) > 1 and len(d.attrs['units']) > 1:
+                d.attrs['labels'] = np.array(list(d.attrs['labels'])[:-1], dtype='S')
+                d.attrs['units'] = np.array(list(d.attrs['units'])[:-1], dtype='S')
+        elif c == 'labels_last_diff':
+            lab = list(d.attrs['labels'])
+            lab[-1] = lab[-1] + b'_'
+            d.attrs['labels'] = np.array(lab, dtype='S')
 
 
 def describe(f, obj):
